@@ -19,6 +19,8 @@ func main() {
 		repoMain(args)
 	case "mut":
 		mutMain(args)
+	case "cron":
+		cronMain(args)
 	default:
 		fmt.Fprintln(os.Stderr, "unknown sub-command", cmd)
 		os.Exit(2)
